@@ -7,7 +7,9 @@ import (
 	"fmt"
 	"os"
 	"runtime"
+	"runtime/debug"
 	"runtime/pprof"
+	"strings"
 	"time"
 
 	"verif/explore"
@@ -93,7 +95,30 @@ func main() {
 				o.StatesFile = fmt.Sprintf("%s.%s.states", *resFile, sanitize(h.Name))
 			}
 			rp := explore.NewReport(o)
-			h.Run(rp, *tier)
+			func() {
+				// a panic that escapes an enumerating (non-scheduled) harness comes from the code under test: it is a
+				// verdict about that code, not an engine error (the rest of this shard's enumeration is lost)
+				defer func() {
+					if p := recover(); p != nil {
+						st := string(debug.Stack())
+						where := "?"
+						for _, ln := range strings.Split(st, "\n") {
+							if strings.Contains(ln, "github.com/samsarahq/thunder/") && strings.Contains(ln, "(") {
+								where = strings.TrimSpace(ln)
+								if i := strings.Index(where, "("); i > 0 {
+									where = where[:i]
+								}
+								break
+							}
+						}
+						rp.AddViolation(&explore.Violation{Item: "panic while enumerating " + h.Name, Stable: true,
+							Signature: strings.ToLower(h.Property) + "/panic/" + where,
+							Failures:  []explore.Failure{{Clause: "no-panic", Msg: fmt.Sprintf("the code under test panicked: %v\n%s", p, st)}}})
+						rp.Exhaustive = false
+					}
+				}()
+				h.Run(rp, *tier)
+			}()
 			rp.Finish()
 			rp.Notes = append(rp.Notes, h.Rule)
 			reports = append(reports, rp)
